@@ -19,6 +19,7 @@ import PoetryVerif.Proofs.ParserTotalVC3
 import PoetryVerif.Proofs.ParserTotalSimp
 import PoetryVerif.Proofs.ParserTotalSimp2
 import PoetryVerif.Proofs.ParserTotalConv
+import PoetryVerif.Proofs.ParserTotalComment
 import PoetryVerif.Proofs.ParserTotalLex
 
 /-! # Part I — versions, string constraints, markers -/
@@ -1972,5 +1973,44 @@ example : parseText "python_version >= \"3.8\" and (sys_platform != \"x\" or ext
     SynNotBothPy (.more (.item "python_version" ">=" "3.8" false) false (.one (.paren (.more
         (.item "sys_platform" "!=" "x" false) true (.one (.item "extra" "==" "y" false)))))) = true :=
   ⟨by decide +kernel, by decide⟩
+
+end Poetry.C19
+
+/-! # Part XIV — the comment stripping of `create_from_pep_508`: guard and extraction agree
+
+`create_from_pep_508` removes a trailing ` # comment` and keeps a marker that follows it: `if " ;" in rest:
+name += " ;" + rest.split(" ;", 1)[1]`.  The subscript `[1]` is safe only because the guard and the extraction use
+the SAME separator.  `stripCommentPy guardSep extractSep` models the four statements with the two separators as
+parameters (Proofs/ParserTotalComment.lean); the seeded edits C19-4 / C19-5 loosen the guard to `";"`.
+`Factory.validate` on a falsy non-table `project` value (seed C19-3) is not modelled (the metadata model takes typed
+tables), so there is no theorem for it: it is covered by the mapping stream of vp/c19.py only. -/
+
+namespace Poetry.C19
+open Poetry Dep ParserTotal
+
+/-- **guard and extraction agree ⇒ no `IndexError`**, for every input and every separator -/
+theorem comment_strip_guard_agrees (sep text : List Char) (e : PyErr) :
+    stripCommentPy sep sep text ≠ .error e := by
+  obtain ⟨r, hr⟩ := stripCommentPy_same_sep_ok sep text
+  rw [hr]; intro h; cases h
+
+/-- with the separator of the source the statement-level model is the model `create_from_pep_508` runs on -/
+theorem comment_strip_is_model (text : List Char) :
+    stripCommentPy [' ', ';'] [' ', ';'] text = .ok (stripComment text) :=
+  stripCommentPy_eq_model text
+
+/-- the statement with independent separators … -/
+def comment_strip_any_separators_full_statement : Prop :=
+  ∀ (g x text : List Char) (e : PyErr), stripCommentPy g x text ≠ .error e
+
+/-- … **is false**: with the guard loosened to `";"` (seeded/C19-4, C19-5) the comment `# pinned; see issue 12` passes
+the guard, `rest.split(" ;", 1)` has one element and `[1]` raises `IndexError` -/
+theorem comment_strip_guard_mismatch_counterexample : ¬ comment_strip_any_separators_full_statement := by
+  intro h
+  exact h [';'] [' ', ';'] "foo # pinned; see issue 12".toList .index (by decide)
+
+example : stripCommentPy [' ', ';'] [' ', ';'] "foo # pinned; see issue 12".toList = .ok "foo".toList := by decide
+example : stripCommentPy [' ', ';'] [' ', ';'] "foo>=1 # c ; python_version < \"3.8\"".toList =
+    .ok "foo>=1 ; python_version < \"3.8\"".toList := by decide
 
 end Poetry.C19
